@@ -182,10 +182,10 @@ def classify(c, a, b):
 
 
 def run(ctx):
-    obl = C.coq_obligations(ctx.pid, ["Extract/ExtractC08.vo"])
+    obl = C.coq_obligations(ctx.pid, ["Extract/ExtractC08.vo"], more_props=["C08Hom"])
     extra = {}
     if ctx.thorough:
-        extra.update(C.coqchk(ctx.pid))
+        extra.update(C.coqchk(ctx.pid, more_props=["C08Hom"]))
     corr = correspondence(ctx)
     if corr.get("ok"):
         extra["c08_stats"] = corr.get("stats")
